@@ -420,6 +420,9 @@ def r6_split_protocol(chk, repo):
         chk.check(k2.get("data") == d2 and "self.end" in (k2.get("end") or ""), R, f, stmt_of(cons[1]), "right chunk does not end at the chunk end with the right rows", site_text="Chunk.split: right = (..., self.end, right rows)")
     ret = [st for st in walk_body(f.node) if isinstance(st, ast.Return)]
     names = [norm(stmt_of(c).targets[0]) for c in cons if isinstance(stmt_of(c), ast.Assign)]
+    for nm in names:
+        others = [st for st in walk_body(f.node) if isinstance(st, ast.Assign) and any(norm(t) == nm for t in st.targets) and st not in [stmt_of(c) for c in cons]]
+        chk.check(not others, R, f, others[0] if others else None, f"`{nm}` is also bound by `{head(others[0], 50) if others else ''}`: on that path a half is not rebuilt from its own rows, range and run annotations (e.g. the chunk itself is handed back, keeping annotations of runs that lie entirely in the other half)", site_text=f"Chunk.split: {nm} only from its constructor call", site={"function": f.qualname, "rule": "halves always rebuilt"})
     chk.check(len(ret) == 1 and len(names) == 2 and norm(ret[0].value) == f"({names[0]}, {names[1]})", R, f, ret[0] if ret else None, "Chunk.split does not return (left, right)", site_text="Chunk.split: return (left, right)")
 
 # ------------------------------------------------------------------------------------ R7
@@ -479,6 +482,8 @@ WITNESSES = [
       "t = max(min(t, self.end), self.start)  # type: ignore\n        if t == self.end:", "t = max(min(t, self.end), self.start)  # type: ignore\n        superrun_first_chunk, superrun_second_chunk = _split_runs_in_chunk(self.superrun, t)\n        if t == self.end:"),
     W("split shortcut trusts the last row's end", "C07.R6", CHUNK,
       "if t == self.end:\n            data1, data2 = self.data, self.data[:0].copy()", "if t == self.end or (len(self.data) and strax.endtime(self.data[-1]) <= t):\n            data1, data2 = self.data, self.data[:0].copy()"),
+    W("left half is the chunk itself when t is the end", "C07.R6", CHUNK,
+      "c2 = strax.Chunk(\n            start=max(self.start, t),", "if t == self.end:\n            c1 = self\n        c2 = strax.Chunk(\n            start=max(self.start, t),"),
     W("halves swapped", "C07.R6", CHUNK,
       "end=max(self.start, t),  # type: ignore\n            data=data1,", "end=max(self.start, t),  # type: ignore\n            data=data2,"),
     W("right half starts at the requested end", "C07.R6", CHUNK,
